@@ -128,6 +128,25 @@ def run(ctx) -> list[Inst]:
         if m is None:
             detail = f'{c.name} has no syntaxError method (default: ignore)'
             continue
+        antlr_raise = None
+        for rz in own_nodes(m.node):
+            if isinstance(rz, ast.Raise) and rz.exc is not None:
+                ex = rz.exc
+                if isinstance(ex, ast.Name) and ex.id in m.params:
+                    antlr_raise = rz          # `raise e`: ANTLR's own RecognitionException object
+                exn = ex.func if isinstance(ex, ast.Call) else ex
+                if isinstance(exn, ast.Name) and exn.id in ('RecognitionException', 'NoViableAltException',
+                                                            'InputMismatchException', 'FailedPredicateException',
+                                                            'LexerNoViableAltException'):
+                    antlr_raise = rz
+        if antlr_raise is not None:
+            insts.append(Inst(
+                RULE, m.short, '(a) the listener raises an error the generated parser does not catch', 'violation',
+                msg=(f"'{stmt_text(antlr_raise)}' raises ANTLR's own RecognitionException from the listener: every "
+                     f"generated rule method catches exactly that type ('except RecognitionException as re') and goes "
+                     f"into recovery, so the error only leaves the parser when it happens in the outermost rule - a "
+                     f"file broken inside a nested rule compiles from what was recovered"),
+                file=m.module.relpath, line=antlr_raise.lineno, props=props))
         if _method_always_raises(ctx, m):
             idiom = f'1: {c.name}.syntaxError always raises; listener installed before the start rule'
         else:
